@@ -4,6 +4,7 @@ import math
 import numpy as np
 
 from . import annot, geo
+from . import chem as T
 from .core import Err, lit
 
 RUN_TARGETS = ["Run/RGeo.vo"]
@@ -50,7 +51,7 @@ def definition(s3):
             same = float(np.dot(ni, nj)) > 0.0
             if abs(float(np.dot(ni, nj))) < 1e-9:
                 und = True
-            if R[i] < R[j]:
+            if T.res_lt(R[i], R[j]):
                 out.append([i, j, "upward" if same else "inward"])
             else:
                 out.append([j, i, "downward" if same else "outward"])
@@ -89,7 +90,7 @@ def run(ctx):
             if len({key(s) for s in sts}) != len(sts):
                 ctx.violation("a stacked pair is reported twice", {"case": case})
             for a, b, t in sts:
-                if not (R[a] < R[b]) and not (R[a].chain, R[a].number, R[a].icode or " ") == (R[b].chain, R[b].number, R[b].icode or " "):
+                if not T.res_lt(R[a], R[b]) and not (R[a].chain, R[a].number, R[a].icode or " ") == (R[b].chain, R[b].number, R[b].icode or " "):
                     ctx.violation("stacking does not list the lower residue first", {"case": case, "pair": [R[a].full_name, R[b].full_name]})
         rl = annot.res_lit(s3)
         corr_expr.append(f"run_find_stackings {rl} {annot.order_lit(o2)}")
